@@ -455,7 +455,7 @@ def run(prop, tier, rep):
         # property clauses: postconditions, exceptional postconditions, callee effects, and the stream contract (a decoder may
         # only read its input forward: that is what makes a pipe equal to a file, C18)
         is_clause = re.search(r"/(post|raises|raises_when|effect)\.|/stream-contract", oid) is not None
-        if not confirmed and verdicts & {"refuted", "candidate"} and unit.get("replay") and unit["replay"]["tool"] not in ("veftopng",):
+        if not confirmed and verdicts & {"refuted", "candidate"} and unit.get("replay"):
             # the solver's own counterexample did not replay (weakened invariants, or no model at all): look for a concrete
             # file on which the real decoder contradicts the executable specification - it only decorates the report
             tool = unit["replay"]["tool"]
@@ -487,6 +487,13 @@ def run(prop, tier, rep):
             rep.undecided.append(oid)
     for fid, where in sorted(present.items()):
         rep.known_finding(fid, where)
+    if prop == "C16" and not os.environ.get("VERIF_ONLY_UNITS"):
+        # PIX pixel positions are not under contract (DESIGN 0.4): a small bounded stand-in runs with every C16 check
+        try:
+            from vcheck import differential
+            differential.run_tool(prop, rep, "pixtopgm", rep.seed, "pixel positions and grey values of PIX are not under contract")
+        except Exception as e:  # noqa
+            rep.errors.append("PIX stand-in could not run: %s: %s" % (type(e).__name__, str(e)[:300]))
     if prop == "C19" and not os.environ.get("VERIF_ONLY_UNITS"):
         try:
             from vcheck import cli_loud
@@ -542,6 +549,12 @@ def replay(prop, path, rep):
         still = [v for v in rep.violations if v["obligation"].endswith("/%s/%s/%s" % (rp["tool"], rp["case"], rp["mode"]))]
         print("still fails" if still else "no mismatch")
         return 1 if still else 0
+    if rp.get("label") and rp.get("family") and rp.get("input_b64"):
+        # an input found by the generated-file search: judged again the same way (real decoder vs executable specification)
+        from vcheck import differential
+        bad, _ = differential.evaluate(prop, [(rp["tool"], base64.b64decode(rp["input_b64"]), rp.get("opts", {}), rp["label"], rp["family"])])
+        print(json.dumps(bad[0]["mismatch"] if bad else "no mismatch"))
+        return 1 if bad else 0
     if "input_b64" not in rp:
         print("replay file carries no concrete input (obligation %s): nothing to execute" % d.get("obligation"))
         return 1 if not d.get("confirmed_on_real_code") else 1
